@@ -59,19 +59,45 @@ func c14algs() []sumAlg {
 	}
 }
 
+// calcAll runs the four registered services over data (handed over in a private buffer).
+func calcAll(algs []sumAlg, data []byte) (out [4]int64, err error) {
+	for i := range algs {
+		out[i], err = algs[i].calc(bytes.NewBuffer(data))
+		if err != nil {
+			return
+		}
+	}
+	return
+}
+
+func refAll(algs []sumAlg, data []byte) (out [4]int64) {
+	for i := range algs {
+		out[i] = algs[i].ref(data)
+	}
+	return
+}
+
 func c14(e *Env) {
 	r := e.R
 	r.Rule("four registered services (CRC16, CRC32, SSE_BIN, SZSE_BIN) × all byte strings of length <= 2 (quick; <= 3 thorough: 16.8 M) × random strings of 0..64 KiB over high-bit-heavy alphabets × long inputs: 8 421 504, 8 421 505 and 16 843 010 bytes of 0xFF (where a signed-32, end-reduced or unsigned-32 accumulator first goes wrong), thorough also 32 MiB random and 64 MiB of 0xFF; buffers are given with a non-zero read offset and unrelated unread prefix removed. distinct_nontrivial = distinct non-empty inputs × algorithms")
-	r.Explain("Oracle: own table-driven CRC-16/MODBUS (the library's is bit-wise), own bit-wise reflected CRC-32 (the library uses hash/crc32), byte sums in a uint64 reduced mod 256 — all self-tested on published check values; SSE/SZSE results must lie in 0..255; Calc must leave buf.Len() and the unread bytes unchanged; a second call on the same buffer gives the same result.")
+	r.Explain("Oracle: own table-driven CRC-16/MODBUS (the library's is bit-wise), own bit-wise reflected CRC-32 (the library uses hash/crc32), byte sums in a uint64 reduced mod 256 — all self-tested on published check values; SSE/SZSE results must lie in 0..255; Calc must leave buf.Len(), the unread bytes, the consumed prefix and the 24 sentinel bytes placed in the spare capacity right behind the data unchanged; a second call on the same buffer gives the same result.")
 	algs := c14algs()
 	var evals, distinct int64
 	var mu sync.Mutex
 	judge := func(a *sumAlg, data []byte, label string) {
 		// present the data behind an already-consumed prefix so that a Calc that looks at the
 		// backing array or consumes the buffer is exposed
-		full := append([]byte("consumed-prefix:"), data...)
-		buf := bytes.NewBuffer(full)
-		buf.Next(len("consumed-prefix:"))
+		const pre = "consumed-prefix:"
+		// backing array = consumed prefix | data | 24 sentinel bytes in the spare capacity (a received frame is
+		// usually verified as a window of a larger receive buffer: what follows it must survive Calc)
+		back := make([]byte, len(pre)+len(data)+24)
+		copy(back, pre)
+		copy(back[len(pre):], data)
+		for k := len(pre) + len(data); k < len(back); k++ {
+			back[k] = 0xA5
+		}
+		buf := bytes.NewBuffer(back[:len(pre)+len(data)])
+		buf.Next(len(pre))
 		before := buf.Len()
 		var got, again int64
 		err, p := mon.Call(func() error {
@@ -112,6 +138,9 @@ func c14(e *Env) {
 		case buf.Len() != before || !bytes.Equal(buf.Bytes(), data):
 			det["len_before"], det["len_after"] = before, buf.Len()
 			r.Violate("C14/buffer-consumed-or-modified/"+a.name, "C14/buffer-consumed-or-modified/"+a.name, det)
+		case !bytes.Equal(back[:len(pre)], []byte(pre)) || !bytes.Equal(back[len(pre)+len(data):], bytes.Repeat([]byte{0xA5}, 24)):
+			det["bytes_behind_the_data_after_Calc"] = val.Hex(back[len(pre)+len(data):], 24)
+			r.Violate("C14/memory-around-the-buffer-modified/"+a.name, "C14/memory-around-the-buffer-modified/"+a.name, det)
 		}
 	}
 	// ---- exhaustive short strings
